@@ -197,7 +197,14 @@ class Executor:
     def run_function(self, fsrc, st, loop_specs=None):
         """Execute fsrc.node's body on st; returns list of final states."""
         saved = (self.cur_fn, self.loop_specs, self.loop_ord)
+        saved_alias = getattr(self, 'alias', {})
         self.cur_fn = fsrc
+        # locals renamed with respect to the source the contracts were written
+        # against are additionally bound under their reference name
+        self.alias = self.fe.local_aliases(fsrc.qualname)
+        for cur, ref in self.alias.items():
+            if cur in st.env and ref not in st.env:
+                st.env[ref] = st.env[cur]
         self.loop_specs = loop_specs or {}
         self.loop_ord = {id(n): k for k, n in enumerate(loops_of(fsrc.node))}
         for n in ast.walk(fsrc.node):
@@ -214,6 +221,7 @@ class Executor:
             outs = self.exec_block(body, [st])
         finally:
             self.cur_fn, self.loop_specs, self.loop_ord = saved
+            self.alias = saved_alias
         for s in outs:
             if s.status == 'normal':
                 s.status = 'return'
@@ -656,6 +664,9 @@ class Executor:
                     st.set_cell(v, self.havoc_value(st, st.cell(v), nm))
                 else:
                     st.env[nm] = self.havoc_value(st, v, nm)
+                    ref = getattr(self, 'alias', {}).get(nm)
+                    if ref is not None:
+                        st.env[ref] = st.env[nm]
         for (o, f) in sorted(fields):
             if o in st.env and isinstance(st.env[o], Ref):
                 rec = st.cell(st.env[o])
@@ -765,6 +776,9 @@ class Executor:
             for nm in sorted(names):
                 if nm not in x.env and nm != kname and is_for:
                     x.env[nm] = LoopLocal(nm, kk >= 1)
+                    ref = getattr(self, 'alias', {}).get(nm)
+                    if ref is not None:
+                        x.env[ref] = x.env[nm]
             if spec.exit_assume is not None:
                 for f in _spec(spec.exit_assume, View(self, x)):
                     x.assume(f)
@@ -809,6 +823,9 @@ class Executor:
         from . import npmodel
         if isinstance(tgt, ast.Name):
             st.env[tgt.id] = v
+            ref = getattr(self, 'alias', {}).get(tgt.id)
+            if ref is not None:
+                st.env[ref] = v
             return
         if isinstance(tgt, (ast.Tuple, ast.List)):
             vv = self.deref(st, v)
